@@ -225,8 +225,8 @@ cdef inline RGB decomp565(byte a, byte b) noexcept nogil:
 cdef inline (byte, byte) compress565(byte r, byte g, byte b) noexcept nogil:
     """Compress RGB triplets into 565-packed data."""
     return (
-        (g << 3) & 0b11100000 | (r >> 3),
-        (b & 0b11111000) | (g >> 5),
+        (g << 3) & 0b11100000 | (b >> 3),
+        (r & 0b11111000) | (g >> 5),
     )
 
 
